@@ -77,6 +77,32 @@ def expected_line(b):
     return s
 
 
+TOKEN_RE = re.compile(r"T\d+q")
+
+
+def interleaving(lines, text_idx, want, outl):
+    """pass-through lines and the hunk lines around them (found by their unique tokens) appear in the output in input
+    order: no text line is written before a rendered line that precedes it in the input, nor after one that follows it"""
+    stripped = [term.strip(x.decode("utf-8", "replace")) for x in outl]
+    anchors = []   # (input index, output index, description)
+    wanted = dict(zip(text_idx, want))
+    for i, l in enumerate(lines):
+        if i in wanted:
+            w = wanted[i]
+            if len(term.strip(w.decode("utf-8", "replace")).strip()) >= 6 and outl.count(w) == 1:
+                anchors.append((i, outl.index(w), "text line %r" % l))
+        elif l[:1] in ("-", "+", " ") and not l.startswith(("--- ", "+++ ")):
+            m = TOKEN_RE.findall(l)
+            if len(m) == 1:
+                hits = [j for j, row in enumerate(stripped) if m[0] in row]
+                if len(hits) == 1:
+                    anchors.append((i, hits[0], "hunk line %r" % l))
+    for (i1, o1, d1), (i2, o2, d2) in zip(anchors, anchors[1:]):
+        if o2 < o1 and ("text" in d1 or "text" in d2):
+            return [f"{d2} (input line {i2}) is written before {d1} (input line {i1}): output lines {o2} and {o1}"]
+    return []
+
+
 def gen_cases(tier, seed):
     n = 300 if tier == "quick" else 4000
     cases = []
@@ -99,6 +125,7 @@ def gen_cases(tier, seed):
         else:
             lines = []
             idx = []
+            tok = gdiff.Tok()   # one token source for the whole stream: hunk lines are anchors of the interleaving check
             for _ in range(r.randint(1, 3)):
                 lines.append("commit " + "%040x" % r.getrandbits(160))
                 lines.append("Author: A U Thor <a@example.com>")
@@ -107,9 +134,11 @@ def gen_cases(tier, seed):
                     idx.append(len(lines))
                     lines.append("    " + gtext_line(r))
                 lines.append("")
-                d = gdiff.gen_diff(r, nsec=r.randint(1, 2), log=False)
+                d = gdiff.gen_diff(r, nsec=r.randint(1, 2), log=False, tok=tok)
                 lines += gdiff.diff_lines(d)
-            cases.append({"kind": kind, "opts": opts, "lines": lines, "text_idx": idx, "git_prefix": prefix})
+                if r.random() < 0.3:
+                    lines.append("")   # `git log` separates commits by a blank line; concatenated `git show` outputs do not
+            cases.append({"kind": kind, "opts": opts, "lines": lines, "text_idx": idx, "git_prefix": prefix, "anchored": True})
     return cases
 
 
@@ -169,6 +198,8 @@ def main(tier, replay=None):
                 except ValueError:
                     why.append(f"text line {text_idx[j]} {w!r} not found unchanged (in order) in the output")
                     break
+        if not why and c.get("anchored"):
+            why = interleaving(lines, text_idx, want, outl)
         if why:
             chk.violation({"property": PID, "why": "; ".join(why), "case": c, "input": "\n".join(lines), "opts": " ".join(c["opts"]),
                            "output_head": [x.decode("utf-8", "replace") for x in outl[:20]]})
